@@ -47,6 +47,9 @@ def _extra_crystals():
                                                   [np.array([.5, .5, 0.]), np.array([.5, 0., .5]), np.array([0., .5, .5])]],
                                       ["La", "Ga", "O"]))
         _EXTRA.append(crystal.Crystal(np.array([[1., 0.], [0., 1.3]]), [[np.zeros(2)], [np.array([.5, .5])]], ["A", "B"]))
+        # a deliberately non-primitive cell (noreduce=True) and a crystal with its symmetry switched off
+        _EXTRA.append(crystal.Crystal(np.diag([2., 1., 1.]), [np.zeros(3), np.array([.5, 0., 0.])], noreduce=True))
+        _EXTRA.append(crystal.Crystal(np.diag([1., 1., 1.2]), [np.zeros(3)], NOSYM=True))
     return _EXTRA
 
 
@@ -296,7 +299,8 @@ class Run(RunBase):
         if kind == "save":
             return {"op": "save", "slot": rng.choice("abc"), "mode": rng.choice(("new", "append", "overwrite", "copied")),
                     "libver": rng.choice(("earliest", "latest")), "driver": rng.choice(("fileobj", "fileobj", "core"))}
-        return {"op": "restart", "slot": rng.choice("abc"), "group": rng.randrange(4), "keep_open": rng.random() < 0.3}
+        return {"op": "restart", "slot": rng.choice("abc"), "group": rng.randrange(4), "keep_open": rng.random() < 0.3,
+                "how": rng.choice(("hdf5", "hdf5", "hdf5", "pickle", "deepcopy"))}
 
     def gen_fork(self, rng):
         return {"op": "fork", "slot": rng.choice("abc"), "mode": rng.choice(("new", "append", "overwrite", "copied")),
@@ -637,6 +641,19 @@ class Run(RunBase):
     def op_restart(self, index, op):
         if self.prop != "C14":
             return "skip"
+        if op.get("how") in ("pickle", "deepcopy"):
+            # checkpoint/restore by Python's own means instead of the HDF5 image: the live calculator is pickled
+            # (or deep-copied), the process 'dies', the run continues with the restored object
+            import pickle
+            try:
+                new = pickle.loads(pickle.dumps(self.calc)) if op["how"] == "pickle" else copy.deepcopy(self.calc)
+            except Exception:
+                self.probes["restore-unsupported-" + op["how"]] += 1      # nothing is claimed about it
+                return "unsupported"
+            self.calc = new
+            self.arrmemo = {}
+            self.faults["restart-from-" + op["how"]] += 1
+            return "restored by " + op["how"]
         ent = self.disk.get(op["slot"])
         if ent is None:
             return "noop"
